@@ -322,12 +322,25 @@ def judge_enc(ctx, c):
 
 
 def judge_enc16(ctx, c):
-    """A block of binary16 inputs through one route."""
-    fmt, nm, mode, route = c['fmt'], c['nm'], c['mode'], c['route']
-    for i in range(c['lo'], c['hi']):
-        x = struct.unpack('>e', i.to_bytes(2, 'big'))[0]
-        judge_enc(ctx, {'k': 'enc', 'fmt': fmt, 'nm': nm, 'mode': mode, 'x': hx(x), 'routes': [route],
-                        'cls': c['cls'], 'key': f'{fmt}|{mode}|{i:04x}' + ('' if route == 'kw' else '|' + route)})
+    """A block of binary16 inputs through one route (fast path; a disagreement is re-judged, classified and
+    recorded as a single-input 'enc' case)."""
+    fmt, nm, mode, route, clsname = c['fmt'], c['nm'], c['mode'], c['route'], c['cls']
+    codec = mf.CODECS[fmt]
+    nb = codec.nbits
+    opname = 'encode:' + route
+    suffix = '' if route == 'kw' else '|' + route
+    with util.options(mxfp_overflow=mode, lsb0=False):
+        for i in range(c['lo'], c['hi']):
+            x = struct.unpack('>e', i.to_bytes(2, 'big'))[0]
+            exp = codec.encode(x, mode)
+            res = lib_encode(route, clsname, fmt, nm, x)
+            got, problem = got_code(res, nb)
+            if problem is None and (got == exp or codec.acceptable(exp, got)):
+                ctx.op(opname, 'ok' if got is not None else 'ValueError')
+                ctx.ok(f'{fmt}|{mode}|{i:04x}{suffix}', i & 0x7fff != 0)
+                continue
+            judge_enc(ctx, {'k': 'enc', 'fmt': fmt, 'nm': nm, 'mode': mode, 'x': hx(x), 'routes': [route], 'cls': clsname})
+    ctx.state(fmt, mode, c['lo'])
 
 
 def judge_dec(ctx, c):
@@ -604,6 +617,14 @@ def run(ctx):
     if ctx.shard == 0:
         directed(ctx)
     job = 0                                     # running index for the shard partition
+    import time
+    tm = ctx.extra.setdefault('section_cpu_s', {})
+    t_last = [time.process_time()]
+
+    def lap(name):
+        now = time.process_time()
+        tm[name] = round(tm.get(name, 0) + now - t_last[0], 2)
+        t_last[0] = now
 
     def mine():
         nonlocal job
@@ -627,6 +648,7 @@ def run(ctx):
                                          'mode': rng.choice(MODES)})
     ctx.exhaustive['every code of every format decoded (bfloat, bfloatle: 65536 each)'] = True
 
+    lap('1 decode every code')
     # -- 2. every binary16 input x every table ------------------------------------------------------------------------
     combos = [(fmt, mode) for fmt in MINI for mode in modes_of(fmt)]
     extra = []
@@ -655,6 +677,7 @@ def run(ctx):
                     ctx.run_case(judge, {'k': 'enc16', 'fmt': fmt, 'mode': 'saturate', 'lo': lo, 'hi': lo + BLOCK,
                                          'nm': spell(fmt), 'route': 'kw', 'cls': rng.choice(util.CLASS_NAMES)})
 
+    lap('2 binary16 inputs x tables')
     # -- 3. decode -> re-encode -------------------------------------------------------------------------------------
     for fmt in FORMATS:
         n = mf.CODECS[fmt].ncodes
@@ -665,6 +688,7 @@ def run(ctx):
                                          'hi': min(n, lo + BLOCK), 'cls': rng.choice(util.CLASS_NAMES)})
     ctx.exhaustive['decode -> re-encode of every non-NaN code'] = True
 
+    lap('3 roundtrip')
     # -- 4. sampled float64 inputs through every creation route ---------------------------------------------------------
     def enc_cases(fmt, xs, modes, routes_per_case):
         for x in xs:
@@ -703,6 +727,7 @@ def run(ctx):
         if _ % 1999 == 0:
             ctx.sample(c)
 
+    lap('4 sampled float64')
     # -- 5. scaled dtypes ---------------------------------------------------------------------------------------------
     for fmt in FORMATS:
         n = mf.CODECS[fmt].ncodes
@@ -734,6 +759,7 @@ def run(ctx):
         ctx.run_case(judge, c)
         if i % 1999 == 0:
             ctx.sample(c)
+    lap('5 scaled')
 
 
 def random_for_pool(ctx):
